@@ -26,8 +26,8 @@ RULE = ('cases = histories of public operations on Signal/AccSignal objects; the
         'W (quick: empty and all-warm; thorough: every W). Random part: histories of 10..60 operations over mutators, settings and '
         'reads on records of 32..300 samples with time steps 1e-6..7 s and amplitude scales 1e-9..1e9. distinct = digest(class, record, operation sequence); non-trivial = history '
         'contains at least one mutator or setting change.')
-ASSUMPTIONS = ['float64 records with non-zero peak (integer records make the in-place corrections raise; the statement does not '
-               'promise they work)',
+ASSUMPTIONS = ['float64 records with non-zero peak (integer records are stored as float64 by the library since fix 9fa8628 and are '
+               'exercised by C05)',
                'explicit regenerations with non-default options (gen_fa_spectrum(p2_plus=..), gen_response_spectrum(xi=..), '
                'generate_displacement_and_velocity_series(trap=False), generate_smooth_fa_spectrum(band=..)) deliberately store a '
                'non-default result and are not operations of the property',
@@ -479,10 +479,8 @@ def run_shard(ctx):
         ctx.case(core.digest(cls_name, base, [describe(o) for o in hist]), nontrivial=nontriv, cls='random-history/' + cls_name,
                  sample={'class': cls_name, 'n': nn, 'record': rc, 'history': [describe(o) for o in hist[:12]], 'length': L})
         run_history(hook, eqsig, cls_name, base, hist, check_every=True, rng=rng, reads_checked=(h % 2 == 0), dt=hdt)
-    ctx.note('abstract_states_visited', len(hook.states))
-    ctx.note('abstract_transitions_visited', len(hook.transitions))
-    ctx.observations['abstract (class,W) states visited in this shard'] = len(hook.states)
-    ctx.observations['abstract (class,W,m) transitions visited in this shard'] = len(hook.transitions)
+    ctx.keyset('abstract states').update(hook.states)
+    ctx.keyset('abstract transitions').update(hook.transitions)
 
 
 def replay(w):
